@@ -79,8 +79,16 @@ class Slicer:
                 out[k] = node
         return out
 
-    def producer_label(self, call):
+    def producer_label(self, call, fn=None):
         d = dotted_calls(call.func)
+        # receiver bound once to a constructor call:  d = lib.RandomDesigner(space); d.suggest(n)   ->   lib.RandomDesigner().suggest
+        f = call.func
+        if fn is not None and isinstance(f, ast.Attribute) and isinstance(f.value, ast.Name):
+            binds = [n.value for n in ast.walk(fn) if isinstance(n, ast.Assign) and any(isinstance(t, ast.Name) and t.id == f.value.id for t in n.targets)]
+            if len(binds) == 1 and isinstance(binds[0], ast.Call):
+                b = dotted_calls(binds[0])
+                if b is not None:
+                    d = b + '.' + f.attr
         if d is None:
             return None
         for suffix, label in self.producers.items():
@@ -149,7 +157,7 @@ class Slicer:
 
     def call(self, fn, e, env, seen, depth):
         rec = lambda x: self.expr(fn, x, env, seen, depth + 1)
-        lab = self.producer_label(e)
+        lab = self.producer_label(e, fn)
         if lab is not None:
             return {'producer:' + lab}
         d = dotted(e.func)
